@@ -2859,7 +2859,10 @@ package gomatrixserverlib
 //@   loop 2: invariant 0 <= idx(2)
 //@   assigns r.powerLevelContents[*]
 //@ func (*stateResolverV2).getFirstPowerLevelMainlineEvent
-//@   trusted
+//@   property C10, C11
+//@   nosafety
+//@   requires r != nil && r.powerLevelMainlinePos != nil
+//@   ensures mainline-positions-are-only-read: forall id string :: ((id in r.powerLevelMainlinePos) <==> old(id in r.powerLevelMainlinePos)) && r.powerLevelMainlinePos[id] == old(r.powerLevelMainlinePos[id])
 //@   assigns r.powerLevelMainlinePos[*]
 
 //@ func (*stateResolverV2).wrapPowerLevelEventsForSort
